@@ -813,14 +813,22 @@ fn run_layout(w: &Worker, r: &mut Rng, quick: bool) -> Obs {
                 (None, None) => obs.count("find_both_missing", 1),
                 (Some((rule, n)), None) => {
                     let sub = if *rule == 5 && where_stored == Some((false, true)) { "remote-head-only-in-packed-refs" } else { "git-finds-it" };
-                    let sub = if sub == "git-finds-it" { qc } else { sub };
+                    // upper-case short names: which of git's rules finds it is part of the class (rule 2 = directly below refs/)
+                    let sub = if sub != "git-finds-it" {
+                        sub.to_string()
+                    } else if qc == "uppercase-short-name" {
+                        format!("{qc}|git-rule-{}", rule + 1)
+                    } else {
+                        qc.to_string()
+                    };
                     obs.findings.push((format!("find|not-found|{sub}"), format!("try_find({q:?}) returns None, git resolves it to {}", String::from_utf8_lossy(n)), wv));
                 }
                 (None, Some((n, _, _))) => {
                     wv["gitoxide_found"] = json!(String::from_utf8_lossy(&n));
                     obs.findings.push((format!("find|found-but-git-does-not|{qc}"), format!("try_find({q:?}) finds {} but git cannot resolve the name", String::from_utf8_lossy(&n)), wv));
                 }
-                (Some((_, want)), Some((n, t, _pid))) => {
+                (Some((rule, want)), Some((n, t, _pid))) => {
+                    let qc = if qc == "uppercase-short-name" { format!("{qc}|git-rule-{}", rule + 1) } else { qc.to_string() };
                     wv["gitoxide_found"] = json!(format!("{} {:?}", String::from_utf8_lossy(&n), t));
                     let want_t = if want == b"HEAD" { l.head.as_ref().map(tgt_of) } else { visible.get(want).cloned() };
                     if &n != want {
